@@ -1,9 +1,10 @@
 #!/usr/bin/env bash
 # maintainer helper: validate a seeded change produced by a sub-agent and run a property's quick check against it.
-# usage: tools_seed.sh <Cxx> <a|b> [check-prop ...]   (reads /tmp/seed/<Cxx>-out/<v>/, writes /verif/seeded/<Cxx>-<v>/)
+# usage: tools_seed.sh <Cxx> <a|b|c|d> [check-prop ...]   (reads /tmp/seed{,2}/<Cxx>-out/<v>/, writes /verif/seeded/<Cxx>-<v>/)
 export GOFLAGS=-mod=mod GOPROXY=off GOSUMDB=off GOTOOLCHAIN=local
 ID=$1; V=$2; shift 2
 SRC=/tmp/seed/$ID-out/$V
+[ -f "$SRC/patch.diff" ] || SRC=/tmp/seed2/$ID-out/$V
 [ -f "$SRC/patch.diff" ] || SRC=/verif/seeded/$ID-$V
 WT=/tmp/vw-$ID-$V
 git -C /repo worktree remove --force $WT 2>/dev/null
